@@ -11,13 +11,6 @@ namespace RsslVerif.Lemmas.ConstPos
 open RsslVerif.Gen.EvalTable RsslVerif.Gen.PosTable RsslVerif.Model.ConstEval RsslVerif.Model.ConstPos
 open RsslVerif.Lemmas.ConstEval
 
-/-- the IR the initialiser of an enumerator is evaluated as (`none`: not an integer type, rejected) -/
-def memberExpr (cls : Cls) (e : Expr) : Option Expr :=
-  match cls with
-  | .scalar s => if s = .Bool ∨ s = .IntLiteral ∨ s = .Int32 ∨ s = .UInt32 then some e else none
-  | .enum _ u => some (.cast (.scalar u) e)
-  | .other => none
-
 /-- **C semantics of an enumerator list.**  `EnumSeq prev ms vs`: `vs` are the values of the enumerators `ms` when
 the previous enumerator (if any) has the value `prev`. -/
 inductive EnumSeq : Option Int → List Member → List Int → Prop
@@ -28,16 +21,6 @@ inductive EnumSeq : Option Int → List Member → List Int → Prop
   | first (rest : List Member) (vs : List Int) : EnumSeq (some 0) rest vs → EnumSeq none (none :: rest) (0 :: vs)
   | next (p : Int) (rest : List Member) (vs : List Int) :
       EnumSeq (some (p + 1)) rest vs → EnumSeq (some p) (none :: rest) ((p + 1) :: vs)
-
-/-- every initialiser is a well-formed tree -/
-def membersWf : List Member → Bool
-  | [] => true
-  | none :: r => membersWf r
-  | some (_, e) :: r => wfE e && membersWf r
-
-/-- integer-like: what can be an enumerator while the enum is being defined -/
-def intLike (c : Constant) : Bool :=
-  c.kind == .Bool || c.kind == .IntLiteral || c.kind == .Int32 || c.kind == .UInt32
 
 theorem widen_ok {c : Constant} {v : Int} (h : widen c = .ok v) : intValue c = some v := by
   unfold widen at h
@@ -446,19 +429,26 @@ theorem defineEnum_cannotDeduce (ms : List Member) (hw : membersWf ms = true) (l
           cases h
         · exact ⟨h1, h2⟩
 
-/-! ### no panic -/
+/-- the overflow rejection is raised exactly when the previous enumerator already has the largest value of its own
+type (`2^127-1` for an untyped literal, `INT_MAX`, `UINT_MAX`) -/
+theorem nextValue_overflow {i j : Nat} {l : Constant} (h : nextValue i l = .error (.overflow j)) :
+    j = i ∧ ∃ v, (l = .intLit v ∧ 2 ^ 127 - 1 ≤ v) ∨ (l = .int32 v ∧ 2 ^ 31 - 1 ≤ v) ∨ (l = .uint32 v ∧ 2 ^ 32 - 1 ≤ v) := by
+  unfold nextValue at h
+  cases l <;> simp [lookup, enumNext, Constant.kind, Constant.intVal?, rangeOfKind, mkInt] at h
+  all_goals
+    rename_i v
+    split at h
+    · cases h
+    · rename_i hgt
+      cases h
+      simp [IntTy.hi, i128, i32, u32] at hgt
+      refine ⟨rfl, v, ?_⟩
+      first
+        | exact .inl ⟨rfl, by omega⟩
+        | exact .inr (.inl ⟨rfl, by omega⟩)
+        | exact .inr (.inr ⟨rfl, by omega⟩)
 
-/-- hypotheses of `defineEnum_noPanic`, executable: every initialiser is a well-formed tree with admissible operand
-kinds (the hypotheses of `consteval_no_panic`), and — type soundness of the front end — an initialiser of integer
-or enum type evaluates, if at all, to an integer-like constant -/
-def membersOk : List Member → Bool
-  | [] => true
-  | none :: r => membersOk r
-  | some (cls, e) :: r =>
-    wfE e && kindsOk e &&
-    (match memberExpr cls e with
-     | some e' => (match eval e' with | .ok c => intLike c | .error _ => true)
-     | none => true) && membersOk r
+/-! ### no panic -/
 
 theorem memberExpr_kindsOk {cls : Cls} {e e' : Expr} (h : memberExpr cls e = some e') (hk : kindsOk e = true) :
     kindsOk e' = true := by
